@@ -84,6 +84,15 @@ def run(ctx) -> None:
                     consts[m] = P.fold(n.value.comparators[0], wm)
     ctx.check(len(set(consts.values())) == len(consts) == 6 and None not in consts.values(), RWn, "actions are distinct constants", f"action predicates are not pairwise exclusive: {consts}", ne.loc if ne else wf.loc)
     ENTRY = "os.path.join(self.watch.path, W.src_path)"
+    # the local that remembers the rename source: the one assigned the entry path on the RENAMED_OLD path
+    REM = None
+    for b in body:
+        if b.conds().get("W.is_renamed_old") is True:
+            for e in b.evs:
+                if e.kind == "assign" and e.text.endswith("= " + ENTRY):
+                    REM = e.extra.get("name")
+    if REM is None:
+        raise AnalysisError("WindowsApiEmitter.queue_events: the variable that remembers the RENAMED_OLD path was not found")
     seen_kinds = set()
     for b in body:
         c = b.conds()
@@ -101,13 +110,13 @@ def run(ctx) -> None:
         fl = "Dir" if isdir else "File"
         brief = " ; ".join(e.brief() for e in ems) or "(nothing)"
         if kind == "is_renamed_old":
-            sets = [e for e in b.evs if e.kind == "assign" and e.extra.get("name", "").startswith("last_renamed") and ENTRY in e.text]
+            sets = [e for e in b.evs if e.kind == "assign" and e.extra.get("name") == REM and ENTRY in e.text]
             ctx.check(not ems and bool(sets), RWn, construct, f"RENAMED_OLD must only remember the source path; does: {brief}", loc)
         elif kind == "is_renamed_new":
-            ok = bool(ems) and ems[0].kind == "E" and isdir is not None and ems[0].cls == f"{fl}MovedEvent" and len(ems[0].args) == 2 and ems[0].args[0].startswith("last_renamed_src_path") and ems[0].args[1] == ENTRY
+            ok = bool(ems) and ems[0].kind == "E" and isdir is not None and ems[0].cls == f"{fl}MovedEvent" and len(ems[0].args) == 2 and ems[0].args[0].startswith(REM) and ems[0].args[1] == ENTRY
             want_sub = bool(isdir) and rec is True
             subs = [e for e in ems[1:] if e.kind in ("G", "G?")]
-            ok = ok and len(ems) == (2 if want_sub else 1) and (not want_sub or (subs and subs[0].cls == "generate_sub_moved_events" and subs[0].args[:1] and subs[0].args[0].startswith("last_renamed_src_path") and subs[0].args[1] == ENTRY))
+            ok = ok and len(ems) == (2 if want_sub else 1) and (not want_sub or (subs and subs[0].cls == "generate_sub_moved_events" and subs[0].args[:1] and subs[0].args[0].startswith(REM) and subs[0].args[1] == ENTRY))
             if isdir and rec is None:
                 ok = False
             ctx.check(ok, RWn, construct, f"RENAMED_NEW emits {brief}; expected one {fl}MovedEvent(remembered source, entry){' + sub-moved events' if want_sub else ''}", loc)
@@ -136,7 +145,7 @@ def run(ctx) -> None:
     for k in WIN_FLAGS:
         ctx.check(k in seen_kinds, RWn, f"coverage action={k}", "no path handles this action", wf.loc)
     # rename state does not leak across batches: initialised per call, before the loop
-    inits = [n for n in ast.walk(wf.node) if isinstance(n, ast.Assign) and any(isinstance(t, ast.Name) and t.id.startswith("last_renamed") for t in n.targets) and isinstance(n.value, ast.Constant)]
+    inits = [n for n in ast.walk(wf.node) if isinstance(n, ast.Assign) and any(isinstance(t, ast.Name) and t.id == REM for t in n.targets) and isinstance(n.value, ast.Constant)]
     ctx.check(bool(inits), RWn, "rename source is reset per batch", "the remembered rename source is not initialised at the start of each batch", wf.loc)
 
     # ================================================================ FSEvents
@@ -300,11 +309,14 @@ def run(ctx) -> None:
         raise AnalysisError("anchor vanished: Inotify._parse_event_buffer")
     fmt = None
     ntargets = None
+    len_name = "length"
     for n in ast.walk(pf.node):
         if isinstance(n, ast.Assign) and isinstance(n.value, ast.Call) and dotted(n.value.func) in ("struct.unpack_from", "struct.unpack"):
             fmt = P.fold(n.value.args[0], pf.module)
             if isinstance(n.targets[0], ast.Tuple):
                 ntargets = len(n.targets[0].elts)
+                if ntargets == 4 and isinstance(n.targets[0].elts[3], ast.Name):
+                    len_name = n.targets[0].elts[3].id
     if not isinstance(fmt, str):
         raise AnalysisError("_parse_event_buffer: unpack format not found")
     import struct
@@ -328,7 +340,7 @@ def run(ctx) -> None:
                 if isinstance(x, ast.Constant) and isinstance(x.value, int) and x.value > 1:
                     lits.append(("advance", x.value, x.lineno))
             names = {x.id for x in ast.walk(n.value) if isinstance(x, ast.Name)}
-            ctx.check("length" in names or any("len" in nm for nm in names), RH, "advance adds the record's own name length", f"the cursor advances by `{ast.unparse(n.value)}`", f"{pf.module.relpath}:{n.lineno}")
+            ctx.check(len_name in names, RH, "advance adds the record's own name length", f"the cursor advances by `{ast.unparse(n.value)}`", f"{pf.module.relpath}:{n.lineno}")
     kinds = {k for k, v, l in lits}
     ctx.check({"bound", "slice", "advance"} <= kinds, RH, "header size used in bound, slice and advance", f"header-size literals found only in {sorted(kinds)}", pf.loc)
     for k, v, l in lits:
@@ -338,10 +350,24 @@ def run(ctx) -> None:
     bf = wm.functions.get("_parse_event_buffer")
     if bf is None:
         raise AnalysisError("anchor vanished: winapi._parse_event_buffer")
+    skip = None  # local that holds <record>.NextEntryOffset
+    for n in ast.walk(bf.node):
+        if isinstance(n, ast.Assign) and isinstance(n.value, ast.Attribute) and n.value.attr == "NextEntryOffset" and isinstance(n.targets[0], ast.Name):
+            skip = n.targets[0].id
+    adv_slice = adv_count = stops = False
+    for n in ast.walk(bf.node):
+        if isinstance(n, ast.Assign) and isinstance(n.value, ast.Subscript) and isinstance(n.value.slice, ast.Slice):
+            lo = n.value.slice.lower
+            if isinstance(lo, ast.Name) and lo.id == skip and isinstance(n.targets[0], ast.Name) and ast.unparse(n.value.value) == n.targets[0].id:
+                adv_slice = True
+        if isinstance(n, ast.AugAssign) and isinstance(n.op, ast.Sub) and isinstance(n.value, ast.Name) and n.value.id == skip:
+            adv_count = True
+        if isinstance(n, ast.If) and isinstance(n.test, ast.Compare) and isinstance(n.test.left, ast.Name) and n.test.left.id == skip and isinstance(n.test.ops[0], (ast.LtE, ast.Lt, ast.Eq)) and any(isinstance(x, ast.Break) for x in n.body):
+            stops = True
     src = ast.unparse(bf.node)
-    ctx.check("fni.NextEntryOffset" in src and re.search(r"read_buffer = read_buffer\[\w+:\]", src) is not None and re.search(r"n_bytes -= \w+", src) is not None, RD, "advances by NextEntryOffset", "the buffer walk does not advance by the record's NextEntryOffset", bf.loc)
-    ctx.check(re.search(r"if \w+ <= 0:\s*break", src) is not None, RD, "stops at the last record (NextEntryOffset == 0)", "the walk does not stop when NextEntryOffset is 0: the last record is decoded forever / again", bf.loc)
-    ctx.check("FileNotifyInformation.FileName.offset" in src and "fni.FileNameLength" in src and "decode('utf-16')" in src, RD, "name = FileNameLength bytes at FileName.offset, UTF-16", "the file name is not taken as FileNameLength bytes at the FileName offset decoded as UTF-16", bf.loc)
+    ctx.check(skip is not None and adv_slice and adv_count, RD, "advances by NextEntryOffset", "the buffer walk does not advance (buffer and remaining count) by the record's NextEntryOffset", bf.loc)
+    ctx.check(stops, RD, "stops at the last record (NextEntryOffset == 0)", "the walk does not stop when NextEntryOffset is 0: the last record is decoded forever / again", bf.loc)
+    ctx.check("FileName.offset" in src and ".FileNameLength" in src and "decode('utf-16')" in src, RD, "name = FileNameLength bytes at FileName.offset, UTF-16", "the file name is not taken as FileNameLength bytes at the FileName offset decoded as UTF-16", bf.loc)
     ctx.assumptions += ["documented semantics of ReadDirectoryChangesW and FSEvents", "os.path.isdir reflects the entry's kind at translation time (Windows)"]
 
 
